@@ -1,0 +1,35 @@
+//go:build verif
+
+package calcium
+
+import (
+	"context"
+	"time"
+
+	"github.com/projecteru2/core/lock"
+	"github.com/projecteru2/core/types"
+)
+
+// Verification hooks (build tag `verif` only) for the distributed-lock
+// properties: the lock helpers of lock.go called directly, with a caller
+// supplied critical section.  Nothing here changes behaviour.
+
+// VerifFDoLock is doLock: create a lock object for name and lock it.
+func (c *Calcium) VerifFDoLock(ctx context.Context, name string, timeout time.Duration) (lock.DistributedLock, context.Context, error) {
+	return c.doLock(ctx, name, timeout)
+}
+
+// VerifFDoUnlock is doUnlock.
+func (c *Calcium) VerifFDoUnlock(ctx context.Context, lk lock.DistributedLock, msg string) error {
+	return c.doUnlock(ctx, lk, msg)
+}
+
+// VerifFWithNodePodLocked is withNodePodLocked with the caller's critical section.
+func (c *Calcium) VerifFWithNodePodLocked(ctx context.Context, nodename string, f func(context.Context, *types.Node) error) error {
+	return c.withNodePodLocked(ctx, nodename, f)
+}
+
+// VerifFWithWorkloadLocked is withWorkloadLocked with the caller's critical section.
+func (c *Calcium) VerifFWithWorkloadLocked(ctx context.Context, ID string, f func(context.Context, *types.Workload) error) error {
+	return c.withWorkloadLocked(ctx, ID, false, f)
+}
